@@ -176,6 +176,47 @@ def laws(tier):
     flabels = ["r", "w", "x", "r|w", "x|nope", "", 0, 1, 7, 8, 255, {"r": True}, {"r": True, "x": False, "w": 1}, {"nope": True}, None, F.r, F.r | F.x]
     L.append(("FlagsEnum(IntFlag)<->keywords", "Byte", (lambda: C.FlagsEnum(C.Byte, F)), (lambda: C.FlagsEnum(C.Byte, r=4, w=2, x=1)), strings_len(1), flabels, {}))
     L.append(("FlagsEnum(IntFlag)<->keywords", "Int16ul", (lambda: C.FlagsEnum(C.Int16ul, F)), (lambda: C.FlagsEnum(C.Int16ul, r=4, w=2, x=1)), strings_len(2), flabels, {}))
+    # a zoo of enum classes (zero-valued, negative, aliased, single, composite flag members): merging a class means merging
+    # name -> value of every member that iterating the class yields (the documented meaning), so the keyword twin is spelled from that
+    class EZ(enum.IntEnum):
+        none = 0
+        read = 1
+        write = 2
+    class EN(enum.IntEnum):
+        neg = -1
+        zero = 0
+        pos = 1
+        low = -128
+    class EA(enum.IntEnum):
+        a = 1
+        b = 1
+        c = 2
+    class E1(enum.IntEnum):
+        single = 5
+    class EP(enum.Enum):
+        off = 0
+        on = 1
+    class FZ(enum.IntFlag):
+        none = 0
+        r = 4
+        w = 2
+        x = 1
+        rw = 6
+    class F1(enum.IntFlag):
+        hi = 128
+    for cls, subs in ((EZ, ("Byte", "VarInt")), (EN, ("Int8sb", "ZigZag")), (EA, ("Byte",)), (E1, ("Byte",)), (EP, ("Byte",))):
+        kw = {m.name: m.value for m in cls}
+        labs = list(cls.__members__) + sorted({m.value for m in cls} | {0, 1, 2, 3, -1, 127}) + ["nope", None] + list(cls)[:2]
+        for sn in subs:
+            L.append(("Enum(class)<->keywords", "%s/%s" % (cls.__name__, sn), (lambda cls=cls, sn=sn: C.Enum(getattr(C, sn), cls)),
+                      (lambda kw=kw, sn=sn: C.Enum(getattr(C, sn), **kw)), strings_len(1) if sn != "VarInt" else sigma(2), labs, {}))
+            L.append(("Enum(class+kw)<->keywords", "%s/%s" % (cls.__name__, sn), (lambda cls=cls, sn=sn: C.Enum(getattr(C, sn), cls, extra=9)),
+                      (lambda kw=kw, sn=sn: C.Enum(getattr(C, sn), **dict(kw, extra=9))), strings_len(1) if sn != "VarInt" else sigma(2), labs + ["extra"], {}))
+    for cls in (FZ, F1, EZ):
+        kw = {m.name: m.value for m in cls}
+        labs = list(cls.__members__) + ["|".join(list(cls.__members__)[:2]), "", 0, 1, 6, 7, 128, 255, {n: True for n in list(cls.__members__)[:2]},
+                                        {n: False for n in cls.__members__}, {"nope": True}, None] + list(cls)[:2]
+        L.append(("FlagsEnum(class)<->keywords", cls.__name__, (lambda cls=cls: C.FlagsEnum(C.Byte, cls)), (lambda kw=kw: C.FlagsEnum(C.Byte, **kw)), strings_len(1), labs, {}))
     # Hex / HexDump vs bare
     for n in widths:
         for signed in (False, True):
